@@ -334,6 +334,13 @@ def build_cases(ctx, rng, thorough, idx_cases, behaviours, sims):
                 for mode in ("gap", "at"):
                     add("fine:xsec:%s:%s:%d" % (tag, mode, j), src, provs[j % 2], {"t": "lat", "kind": "face", "pick": j, "mode": mode}, threads=X.THREADS, **({"data": data_spec(j)} if j % 2 else {}))
                     add("fine:faces_at:%s:%s:%d" % (tag, mode, j), src, provs[(j + 1) % 2], {"t": "lat", "kind": "face", "pick": j, "mode": mode, "faces_only": True}, threads=X.THREADS)
+    # M. slice objects on the grid dimension of a UxDataArray (negative bounds and steps included)
+    for name in ("cube", "cuboctahedron"):
+        e = catalog.entries(name=name, rot=0, cut=0)[0]
+        for j, sl in enumerate([[-3, None, None], [1, -2, None], [None, None, 2], [None, -4, -1], [2, 1000, None], [-2, None, -1], [-5, -1, 2]]):
+            for kind in ("face", "node", "edge"):
+                k += 1
+                add("slc:%s:%s:%d" % (name, kind, j), cat_src(e), provs[k % 2], {"t": "idx", "kind": kind, "idx": [], "slice": sl}, data=dict(data_spec(k), kind=kind))  # a slice refers to the array's own dimension
     # L. repeated FACE indices: outside the quantifier ("all index sets ..."; for node / edge selections repeats
     #    cannot arise in the result).  Recorded for information only, never judged.
     cub = catalog.entries(name="cube", rot=0, cut=0)[0]
@@ -401,9 +408,10 @@ def run(ctx):
         raise Machinery("duplicate case ids")
     by_id = {c["id"]: c for c in cases}
     recs = pmap(X.record_case, cases)
-    bad = [r for r in recs if "_machinery" in r]
-    if bad:
-        raise Machinery("%d cases could not be replayed, e.g. %s: %s" % (len(bad), bad[0]["id"], bad[0]["_machinery"]))
+    # the implementation could not provide the source grid / a projectable result: a verdict about the tree under
+    # test (none occurs on the reference tree), not a failure of the harness
+    unusable = {r["id"]: r["_machinery"] for r in recs if "_machinery" in r}
+    recs = [r for r in recs if "_machinery" not in r]
     skipped_replay = {r["id"]: r["_skip"] for r in recs if "_skip" in r}
     observed = [r for r in recs if by_id[r["id"]].get("observe")]
     ctx.note(
@@ -426,6 +434,10 @@ def run(ctx):
         t = c["op"]["t"]
         nontrivial = (t, c["op"].get("kind"), c["prov"], json.dumps(r.get("sel"), sort_keys=True), json.dumps(c["src"], sort_keys=True), tuple(c.get("pre", ())), json.dumps(c.get("data"))) if len(r.get("mesh", [])) >= 2 else None
         ctx.count(1, nontrivial)
+    for rid, msg in sorted(unusable.items()):
+        c = by_id[rid]
+        ctx.count(1, None)
+        ctx.violation(rid, "Unusable", detail=msg, sig={"mech": "none", "prov": c["prov"] if c["prov"].startswith("ugrid") else "any"}, replay=c)
     for rid, (clauses, tags) in sorted(failed.items()):
         c = by_id[rid]
         inf = info.get(rid, {})
